@@ -281,6 +281,7 @@ func genCollect(repo string) ([]genDef, error) {
 	}
 	defs = append(defs, scanLimitDefs(repo, fset)...)
 	defs = append(defs, selfUpdateDef(repo, fset)...)
+	defs = append(defs, callOrderDef(repo, fset)...)
 	defs = append(defs, genDef{Name: "max_scan_token_size", Module: "Consts", Type: "N", Value: strconv.Itoa(bufio.MaxScanTokenSize), Comment: "bufio.MaxScanTokenSize of the Go toolchain that builds /repo"})
 	return defs, nil
 }
@@ -449,6 +450,38 @@ func findFunc(f *ast.File, name string) *ast.FuncDecl {
 // scanLimitDefs: for every line-reading site, the maximum line length its scanner
 // delivers: bufio.MaxScanTokenSize for a plain bufio.NewScanner, the helper's
 // configured maximum for utils.NewLineScanner.
+// callOrderDef: the methods Operator.complete calls on its receiver, in source order: the
+// order of the final textual passes is what the model's final_passes composes
+func callOrderDef(repo string, fset *token.FileSet) []genDef {
+	names := []string{}
+	f, err := parser.ParseFile(fset, filepath.Join(repo, "regex/operators/assembler.go"), nil, 0)
+	if err == nil {
+		for _, d := range f.Decls {
+			fd, ok := d.(*ast.FuncDecl)
+			if !ok || fd.Body == nil || fd.Name.Name != "complete" || fd.Recv == nil || len(fd.Recv.List) == 0 || len(fd.Recv.List[0].Names) == 0 {
+				continue
+			}
+			recv := fd.Recv.List[0].Names[0].Name
+			ast.Inspect(fd.Body, func(n ast.Node) bool {
+				if call, ok := n.(*ast.CallExpr); ok {
+					if sel, ok := call.Fun.(*ast.SelectorExpr); ok {
+						if id, ok := sel.X.(*ast.Ident); ok && id.Name == recv {
+							names = append(names, sel.Sel.Name)
+						}
+					}
+				}
+				return true
+			})
+		}
+	}
+	parts := make([]string, len(names))
+	for i, s := range names {
+		parts[i] = coqStr(s)
+	}
+	return []genDef{{Name: "calls_regex_operators_assembler_Operator_complete", Module: "Consts", Type: "list str",
+		Value: "[" + strings.Join(parts, ";\n    ") + "]", Comment: "regex/operators/assembler.go func Operator.complete, calls on the receiver in order: " + strings.Join(names, " ")}}
+}
+
 // selfUpdateDef: does internal/updater.Updater install through a configured updater value
 // (method call x.UpdateTo, runs the validator) or through the package-level selfupdate.UpdateTo?
 func selfUpdateDef(repo string, fset *token.FileSet) []genDef {
